@@ -6,7 +6,7 @@
    shutdown completions, in any order, including events the environment cannot produce).  [consumers s] = the table
    ConsumerGroup.consumers; a generator [g] of [gens s] with [adv g = true] is a _join_and_sync past the metadata load
    (shutting consumers down, awaiting JoinGroup, partition lookup or SyncGroup).  Never weaken a statement here. *)
-From AV Require Import Base.Util Model.Group Model.GroupObs Proofs.GroupInv Proofs.GroupInvH Proofs.GroupOut Proofs.GroupC16.
+From AV Require Import Base.Util Model.Group Model.GroupObs Proofs.GroupInv Proofs.GroupInvH Proofs.GroupOut Proofs.GroupC17 Proofs.GroupC16.
 
 (* Consumers only for the partitions assigned in the CURRENT generation, constructed with the current generation and member id
    (the ids their commits carry: afkak/consumer.py passes them to every OffsetCommit). *)
@@ -62,6 +62,16 @@ Theorem C16_evicted_stopped_before_rejoin : forall grp evs k, let s := state_aft
 Proof. exact evicted_stopped. Qed.
 Print Assumptions C16_evicted_stopped_before_rejoin.
 
+(* ... step level: a failed JoinGroup / SyncGroup reply addressed to the generator awaiting it, a failed heartbeat reply of the
+   running looper, a failing partition consumer - carrying an evicting error - empties the table in that very step and stops
+   every REGISTERED consumer (consumers already shutting down for a rejoin in progress are left to finish: their commit is
+   rejected by the coordinator, which the property allows). *)
+Theorem C16_evicted_step : forall grp evs e k, let s := state_after grp evs in
+  delivers_evicting s e k -> evicting k = true ->
+  consumers (fst (step s e)) = [] /\ (forall c, In c (consumers s) -> In (OStopC (c_id c)) (snd (step s e))).
+Proof. exact evicted_step. Qed.
+Print Assumptions C16_evicted_step.
+
 (* At most one join/sync exchange: at most one generator is past the metadata load - ever; while stop() has not begun there is
    at most one generator at all and it owns _rejoin_d; two advanced generators are the same one. *)
 Theorem C16_single_join : forall grp evs, let s := state_after grp evs in
@@ -95,6 +105,18 @@ Proof. exact stop_no_consumers. Qed.
 Print Assumptions C16_stop_no_consumers.
 
 (* ---- non-vacuity ---- *)
+Example evicted_nonvacuous :             (* a consumer's commit is rejected with ILLEGAL_GENERATION: both consumers stopped, then the rejoin is scheduled *)
+  let evs := [EStart; ELookup 0 LBroker; EMeta 1 ROk; EJoin 2 (JOk 5 7 0); ESync 3 (SOk [(0, 1); (1, 0)])] in
+  delivers_evicting (state_after true evs) (ECFail 0 KIllGen) KIllGen /\
+  snd (step (state_after true evs) (ECFail 0 KIllGen)) = [OStopC 0; OStopC 1; OSched TRejoin DRetry 0].
+Proof. split; [apply de_cfail; vm_compute; reflexivity|vm_compute; reflexivity]. Qed.
+Example evicted_during_prepare_nonvacuous :   (* eviction while the old consumer is shutting down for a rejoin: it is left to finish *)
+  snd (run true [EStart; ELookup 0 LBroker; EMeta 1 ROk; EJoin 2 (JOk 5 7 0); ESync 3 (SOk [(0, 1)]); ETick; EHbReply 4 (RFail KRebalance);
+                 EFire 0; ELookup 5 LBroker; EMeta 6 ROk; ECFail 0 KUnkMember; ECShut 0 false; EJoin 7 (JOk 6 8 0)])
+  = [[OLookup 0; OApi 0]; [OMeta 1]; [OJoin 2 0]; [OSync 3 5 7 false]; [OSched THeartbeat DHeartbeat 0; OStartC 0 0 1 5 7];
+     [OHeartbeat 4 5 7; OSched THeartbeat DHeartbeat 0]; [OCancelTimer THeartbeat 0; OSched TRejoin DRetry 0]; [OLookup 5]; [OMeta 6];
+     [OShutC 0]; [OSched TRejoin DRetry 1]; [OJoin 7 0]; [OSync 8 6 8 false]].
+Proof. vm_compute. reflexivity. Qed.
 Example consumers_nonvacuous :           (* a leader with two consumers of generation 5, member 7 *)
   let s := state_after true [EStart; ELookup 0 LBroker; EMeta 1 ROk; EJoin 2 (JOk 5 7 1); EParts 3 POk; ESync 4 (SOk [(0, 1); (1, 0)])] in
   map (fun c => (c_topic c, c_part c, c_gen c, c_mem c)) (consumers s) = [(0, 1, 5, 7); (1, 0, 5, 7)] /\ generation s = 5 /\ member s = 7.
